@@ -7,14 +7,23 @@ TT = os.path.join(V.SPEC, 'topology', 'Topology.tla')
 
 
 def seg_hits_rect(p, q, r):
-    # generator rule only: closed segment vs closed rectangle grown by 1 (conservative)
+    # generator rule only: closed segment vs closed rectangle grown by 1, decided exactly (Liang-Barsky clipping; a sampled test
+    # missed segments that clip a corner over less than the sampling distance and produced invalid scenes)
     x0, y0, x1, y1 = r[0] - 1, r[1] - 1, r[0] + r[2] + 1, r[1] + r[3] + 1
-    steps = 40
-    for i in range(steps + 1):
-        x = p[0] + (q[0] - p[0]) * i / steps; y = p[1] + (q[1] - p[1]) * i / steps
-        if x0 <= x <= x1 and y0 <= y <= y1:
-            return True
-    return False
+    dx, dy = q[0] - p[0], q[1] - p[1]
+    t0, t1 = 0.0, 1.0
+    for d, lo, hi in ((dx, x0 - p[0], x1 - p[0]), (dy, y0 - p[1], y1 - p[1])):
+        if d == 0:
+            if lo > 0 or hi < 0:
+                return False
+        else:
+            a, b = lo / d, hi / d
+            if a > b:
+                a, b = b, a
+            t0, t1 = max(t0, a), min(t1, b)
+            if t0 > t1:
+                return False
+    return True
 
 
 def gen_scene(rnd):
@@ -163,6 +172,20 @@ def squeezed_between_abutting_nodes(states):
     return False
 
 
+def runs_along_a_side_in_line(states):
+    """naming only (known-finding fingerprint): in the last recorded state some path has three consecutive points exactly on one
+    vertical or horizontal line, two of them neighbouring corners of ONE node -- the path runs exactly along that node's side and
+    straight on to (or from) the next point"""
+    if not states:
+        return False
+    for path in states[-1]['paths']:
+        for a, b, c in zip(path, path[1:], path[2:]):
+            for ax in (2, 3):
+                if a[ax] == b[ax] == c[ax] and ((a[0] == b[0] and a[1] != 4 and b[1] != 4) or (b[0] == c[0] and b[1] != 4 and c[1] != 4)):
+                    return True
+    return False
+
+
 def main(tier):
     ev = V.Evidence(PID, tier)
     vd = V.Verdict(PID, ev)
@@ -203,6 +226,11 @@ def main(tier):
                     said = re.search(r'\| said: ([A-Za-z0-9 ]+)', what)         # the library's own explanation, without the case number
                     why = re.sub(r'[^a-z0-9]+', '-', re.sub(r': C\d+', '', said.group(1)).strip().lower()) if said else ''
                     key = 'topology:edge-in-the-zero-width-gap-between-abutting-nodes:assertion-in-' + (fn.group(1) if fn else 'unknown') + (':' + why if why else '')
+                elif m and runs_along_a_side_in_line(x['states']):
+                    fn = re.search(r'in: [^\n]*?(\w+)\(', what)
+                    said = re.search(r'\| said: ([A-Za-z0-9 ]+)', what)
+                    why = re.sub(r'[^a-z0-9]+', '-', re.sub(r': C\d+', '', said.group(1)).strip().lower()) if said else ''
+                    key = 'topology:path-runs-exactly-along-a-node-side-in-line-with-the-next-point:assertion-in-' + (fn.group(1) if fn else 'unknown') + (':' + why if why else '')
             nodes, edges, drag, steps, dx, dy, rz, rw, rh, reuse, drag2, steps2, d2 = scenes[i - 1][:13]
             bends = scenes[i - 1][13] if len(scenes[i - 1]) > 13 else []
             vd.violation(key, '%s %s nodes(x,y,w,h)=%s edges=%s drag=%d by (%d,%d) x%d resize=%s' % (t, what[:150].replace('\n', ' '), nodes, edges, drag, dx, dy, steps, (rz, rw, rh) if rz >= 0 else None),
